@@ -246,6 +246,9 @@ func (f *Factory) BinBV(op Op, a, b *Term) *Term {
 	if commutative(op) && a.IsConst() && !b.IsConst() {
 		a, b = b, a
 	}
+	if commutative(op) && !a.IsConst() && !b.IsConst() && a.ID > b.ID {
+		a, b = b, a
+	}
 	// identities with constant right operand
 	if b.IsConst() {
 		switch op {
@@ -365,6 +368,9 @@ func (f *Factory) Cmp(op Op, a, b *Term) *Term {
 			}
 		}
 		if a.IsConst() && !b.IsConst() {
+			a, b = b, a
+		}
+		if !a.IsConst() && !b.IsConst() && a.ID > b.ID {
 			a, b = b, a
 		}
 		// ite(c, k1, k2) == k  with constants
